@@ -70,7 +70,7 @@ GEN = {"h0": (3.0, 40.0), "h1": (3.0, 40.0), "h2": (30.0, 60.0), "gf0": (0.9, 1.
 
 @lemma(gen=GEN, timeout=30)
 def expansion_keeps_height_contiguity_and_target_mass(h0: float, h1: float, h2: float, gf0: float, gc0: float, gf1: float, gc1: float, n: float):
-    assume(h0 > 0 and h1 > 0 and h2 > 0 and gf0 > 0 and gc0 > 0 and gf1 > 0 and gc1 > 0 and n > 0)
+    assume(h0 > 0 and h1 > 0 and h2 > 0 and gf0 > 0 and gc0 > 0 and gf1 > 0 and gc1 > 0)  # any density n (0 included): the statement is an identity in n
     f0, c0, k0 = comp(True, n, None), comp(True, 2 * n, None), comp(False, 3 * n, None)
     f1, c1, k1 = comp(True, n, None), comp(True, 2 * n, None), comp(False, 3 * n, None)
     kd = comp(False, 3 * n, None)
@@ -120,7 +120,7 @@ def expansion_keeps_height_contiguity_and_target_mass(h0: float, h1: float, h2: 
 @lemma(gen=GEN, timeout=30)
 def expansion_then_inverse_restores(h0: float, h1: float, h2: float, gf0: float, gf1: float, n: float):
     """all solids of a block share the fraction: expanding and then applying the inverse restores heights and densities"""
-    assume(h0 > 0 and h1 > 0 and h2 > 0 and gf0 > 0 and gf1 > 0 and n > 0)
+    assume(h0 > 0 and h1 > 0 and h2 > 0 and gf0 > 0 and gf1 > 0)
     f0, c0 = comp(True, n, None), comp(True, 2 * n, None)
     f1, c1 = comp(True, n, None), comp(True, 2 * n, None)
     kd = comp(False, 3 * n, None)
@@ -142,6 +142,48 @@ def expansion_then_inverse_restores(h0: float, h1: float, h2: float, gf0: float,
         return
     assert eq(b0.p.ztop, h0) and eq(b1.p.ztop, h0 + h1) and eq(bd.p.ztop, h0 + h1 + h2), "heights restored"
     assert eq(f0.p.numberDensities["U235"], n) and eq(c0.p.numberDensities["U235"], 2 * n) and eq(c1.p.numberDensities["U235"], 2 * n), "densities restored"
+
+
+@lemma(gen=dict(GEN, fuelLinked=[True, False], cladLinked=[True, False]), timeout=30)
+def expansion_with_components_that_have_nothing_below(fuelLinked: bool, cladLinked: bool, h0: float, h1: float, h2: float, gf0: float, gc0: float, gf1: float,
+                                                      gc1: float, nf: float, nc: float):
+    """the step above for the OTHER linkages of the same shape: a solid of the upper pin block that is NOT linked to a solid
+    below it (fuelLinked / cladLinked False: no radial overlap, other multiplicity) sits on the block boundary instead of
+    on a component; independent densities nf, nc of any sign.  Height, contiguity, grid bounds, boundary-with-target and
+    target mass hold as before (the Linkage stand-in of the lemmas above always links every solid)."""
+    assume(h0 > 0 and h1 > 0 and h2 > 0 and gf0 > 0 and gc0 > 0 and gf1 > 0 and gc1 > 0)
+    f0, c0 = comp(True, nf, None), comp(True, nc, None)
+    f1, c1 = comp(True, nf, None), comp(True, nc, None)
+    kd = comp(False, 1.0, None)
+    b0 = block(0.0, h0, [c0, f0])  # the target is not the first child
+    b1 = block(h0, h0 + h1, [f1, c1])
+    bd = block(h0 + h1, h0 + h1 + h2, [kd])
+    a = new(AssemblyStub, blocks=[b0, b1, bd], spatialGrid=new(GridStub, _bounds=(None, None, None)))
+    linked = new(Linkage, a=a,
+                 linkedBlocks={b0: new(Link, lower=None, upper=b1), b1: new(Link, lower=b0, upper=bd), bd: new(Link, lower=b1, upper=None)},
+                 linkedComponents={f0: new(Link, lower=None, upper=f1 if fuelLinked else None), c0: new(Link, lower=None, upper=c1 if cladLinked else None),
+                                   f1: new(Link, lower=f0 if fuelLinked else None, upper=None), c1: new(Link, lower=c0 if cladLinked else None, upper=None)})
+    ed = new(ExpansionData, _expansionFactors={f0: gf0, c0: gc0, f1: gf1, c1: gc1}, _componentDeterminesBlockHeight={f0: True, f1: True})
+    ch = new(AxialExpansionChanger, linked=linked, expansionData=ed)
+    total = bd.p.ztop
+    try:
+        ch.axiallyExpandAssembly()
+    except ArithmeticError:
+        return
+    cover("expanded")
+    assert eq(bd.p.ztop, total), "total assembly height unchanged"
+    assert eq(b0.p.zbottom, 0.0) and eq(b1.p.zbottom, b0.p.ztop) and eq(bd.p.zbottom, b1.p.ztop), "each block's bottom is the top of the one below"
+    assert eq(b0.p.height, b0.p.ztop - b0.p.zbottom) and eq(b1.p.height, b1.p.ztop - b1.p.zbottom) and eq(bd.p.height, bd.p.ztop - bd.p.zbottom)
+    assert b0.p.height > 0 and b1.p.height > 0 and bd.p.height > 0, "blocks of positive height"
+    bounds = a.spatialGrid._bounds[2]
+    assert len(bounds) == 4 and eq(bounds[0], 0.0) and eq(bounds[1], b0.p.ztop) and eq(bounds[2], b1.p.ztop) and eq(bounds[3], bd.p.ztop)
+    assert eq(b0.p.ztop, f0.ztop) and eq(b1.p.ztop, f1.ztop), "block top = top of its target component"
+    assert eq(f0.height, gf0 * h0) and eq(f1.height, gf1 * h1) and eq(c1.height, gc1 * h1)
+    assert eq(f1.zbottom, f0.ztop), "the target sits on the target below = the block boundary, linked or not"
+    assert eq(c1.zbottom, c0.ztop if cladLinked else b0.p.ztop), "a linked solid sits on the one below, an unlinked one on the block boundary"
+    assert eq(f0.p.numberDensities["U235"] * b0.p.height, nf * h0) and eq(f1.p.numberDensities["U235"] * b1.p.height, nf * h1), "target mass conserved"
+    assert eq(c1.p.numberDensities["U235"] * gc1, nc), "density divided by the growth fraction"
+    assert implies(eq(gf1, gc1) and not cladLinked, eq(c1.p.numberDensities["U235"] * b1.p.height, nc * h1)), "uniform growth on the common base: mass conserved"
 
 
 # ----------------------------------------------------------------------------- which component is a block's target
@@ -359,7 +401,7 @@ def prescribed_expansion_of_a_whole_assembly(nb: int, setFuel: bool, h0: float, 
     collections as maps (PMap)."""
     nb = choose(nb, 1, 3)
     hs, gf, gc = [h0, h1, h2], [gf0, gf1, gf2], [gc0, gc1, gc2]
-    assume(h0 > 0 and h1 > 0 and h2 > 0 and hd > 0 and n > 0)
+    assume(h0 > 0 and h1 > 0 and h2 > 0 and hd > 0)
     assume(gf0 > 0 and gc0 > 0 and gf1 > 0 and gc1 > 0 and gf2 > 0 and gc2 > 0)
     fuel, clad, cool, blocks = [], [], [], []
     for k in range(nb):
@@ -483,7 +525,7 @@ def thermal_expansion_of_a_whole_assembly(nb: int, h0: float, h1: float, hd: flo
     and grid bounds as for the prescribed case; number density x growth^3 is conserved (2-D thermal + axial change)."""
     nb = choose(nb, 1, 2)
     hs, Ts, Us = [h0, h1], [T0, T1], [U0, U1]
-    assume(h0 > 0 and h1 > 0 and hd > 0 and n > 0)
+    assume(h0 > 0 and h1 > 0 and hd > 0)
     fuel, clad, blocks = [], [], []
     for k in range(nb):
         fuel.append(tcircle("fuel", {"FUEL"}, True, 0.0, 0.8, Ts[k], n))
@@ -530,6 +572,66 @@ def thermal_expansion_of_a_whole_assembly(nb: int, h0: float, h1: float, hd: flo
         assert eq(blocks[k].p.ztop, fuel[k].ztop) and blocks[k].p.height > 0
         assert eq(fuel[k].p.numberDensities["U235"] * g * g * g, n, 1e-7), "atoms conserved: density x growth^3"
         assert eq(fuel[k].p.numberDensities["U235"] * blocks[k].p.height * g * g, n * hs[k], 1e-7), "target component: density x height x area conserved"
+
+
+@lemma(gen={"h0": (3.0, 40.0), "h1": (3.0, 40.0), "hd": (30.0, 60.0), "s0": [0.0, 0.3, 1.0, 1.0], "s1": [0.0, 0.0, 0.6, 1.0], "sd": [0.0, 0.5, 1.0], "T0": (300.0, 500.0),
+            "T1": (300.0, 500.0), "U0": (250.0, 700.0), "U1": (250.0, 700.0), "Ud": (250.0, 700.0), "n": (0.001, 0.05)}, overrides=CH_OVERRIDE, timeout=200)
+def thermal_expansion_with_temperature_points_anywhere(h0: float, h1: float, hd: float, s0: float, s1: float, sd: float, T0: float, T1: float, U0: float, U1: float,
+                                                       Ud: float, n: float):
+    """thermal_expansion_of_a_whole_assembly with the temperature points NOT at the block centres: 2 pin blocks + dummy, one
+    point per block at ANY relative position s in [0, 1] of the block - including exactly on a block boundary, where the
+    point belongs to both neighbours and a block's temperature is the mean of the points inside it.  Whatever temperature
+    a block ends up with (read back from its components), each solid grows by the ratio of the expansion factors at the
+    new and old temperature, and total height, contiguity, grid bounds, positive heights and atoms hold as before."""
+    hs, Ts = [h0, h1], [T0, T1]
+    assume(h0 > 0 and h1 > 0 and hd > 0)
+    assume(0 <= s0 and s0 <= 1 and 0 <= s1 and s1 <= 1 and 0 <= sd and sd <= 1)
+    fuel, clad, blocks = [], [], []
+    for k in range(2):
+        fuel.append(tcircle("fuel", {"FUEL"}, True, 0.0, 0.8, Ts[k], n))
+        clad.append(tcircle("clad", {"CLAD"}, True, 0.9, 1.0, Ts[k], 2 * n))
+        cool = tcircle("coolant", {"COOLANT"}, False, 1.0, 1.5, Ts[k], 3 * n)
+        blocks.append(fblock(hs[k], {"FUEL"}, [fuel[k], clad[k], cool]))
+    kd = tcircle("coolant", {"COOLANT"}, False, 0.0, 1.5, T0, 3 * n)
+    bd = fblock(hd, {"DUMMY"}, [kd])
+    blocks.append(bd)
+    a = real_assembly(blocks)
+    a.reestablishBlockOrder()
+    a.calculateZCoords()
+    total = bd.p.ztop
+    grid = [s0 * h0, h0 + s1 * h1, h0 + h1 + sd * hd]
+    field = [U0, U1, Ud]
+    ch = AxialExpansionChanger()
+    try:
+        ch.performThermalAxialExpansion(a, grid, field)
+    except ArithmeticError:
+        cover("refused")
+        return
+    except RuntimeError:
+        return  # a flat expansion law between two different temperatures (see the lemma above)
+    cover("expanded")
+    for k in range(2):
+        assume(percent(fuel[k], Ts[k]) > -100.0 and percent(fuel[k], fuel[k].temperatureInC) > -100.0)
+    assert eq(bd.p.ztop, total) and eq(a.getTotalHeight(), total), "total assembly height unchanged"
+    bounds = a.spatialGrid._bounds[2]
+    assert len(bounds) == 4 and eq(bounds[0], 0.0) and eq(blocks[0].p.zbottom, 0.0)
+    for k in range(3):
+        b = blocks[k]
+        if k > 0:
+            assert eq(b.p.zbottom, blocks[k - 1].p.ztop), "each block's bottom is the top of the one below"
+        assert eq(b.p.height, b.p.ztop - b.p.zbottom) and b.p.height > 0
+        assert eq(bounds[k + 1], b.p.ztop), "the axial grid bounds equal the block elevations"
+    for k in range(2):
+        Tnew = fuel[k].temperatureInC
+        assert eq(clad[k].temperatureInC, Tnew), "all components of a block take the same temperature"
+        lo, hi = min(U0, U1, Ud), max(U0, U1, Ud)
+        assert lo <= Tnew and Tnew <= hi or NATIVE and (eq(Tnew, lo) or eq(Tnew, hi)), "... a mean of field values"
+        g = (100.0 + percent(fuel[k], Tnew)) / (100.0 + percent(fuel[k], Ts[k]))
+        assert eq(fuel[k].height, g * hs[k]) and eq(clad[k].height, g * hs[k]), "axial growth = ratio of the linear expansion factors"
+        assert eq(blocks[k].p.ztop, fuel[k].ztop)
+        assert eq(fuel[k].p.numberDensities["U235"] * g * g * g, n, 1e-7), "atoms conserved: density x growth^3"
+    assert implies(s1 > 0, eq(fuel[0].temperatureInC, U0)), "a block with one point takes its value"
+    assert implies(s1 == 0, eq(fuel[0].temperatureInC, (U0 + U1) / 2.0)), "a point on the boundary counts for both neighbours"
 
 
 # ----------------------------------------------------------------------------- the linkage relation itself (documented contract of areAxiallyLinked)
